@@ -136,7 +136,19 @@ func c19Question(i int, name string) *dns.Msg {
 	t, c := c19QTC(i)
 	q.SetQuestion(c19Name(i), t)
 	q.Question[0].Qclass = c
+	// the DNSSEC-relevant query flags are part of what an entry was stored for
+	q.AuthenticatedData = i%7 == 2
+	q.CheckingDisabled = i%7 == 4 || i%10 == 6
+	if i%9 == 1 || i%10 == 6 {
+		q.SetEdns0(1232, true) // DO
+	}
 	return q
+}
+
+// c19EntryKey is the cache key of entry i as the plugin computes it: on the
+// query as the query context presents it (the client's OPT is replaced there).
+func c19EntryKey(i int) string {
+	return verifMsgKey(query_context.NewContext(c19Question(i, "")).Q())
 }
 
 // c19Index recovers the entry index from one of its names (-1: not an entry name).
@@ -576,7 +588,7 @@ func c19RunRoundtrip(in c19RtIn, verbose bool) c19Verdict {
 		var plan []probe
 		epoch := vs.Epoch.UnixNano()
 		for i := 0; i < cf.N; i++ {
-			k := verifMsgKey(c19Question(i, ""))
+			k := c19EntryKey(i)
 			pts := []probe{{loadAt, i, "load"}, {loadAt + 1, i, "load+1ns"}, {loadAt + time.Second - 1, i, "load+1s-1ns"}, {loadAt + time.Second, i, "load+1s"}}
 			if s, ok := snapA[k]; ok {
 				for bi, bnd := range []int64{s.MsgExp, s.CacheExp} {
@@ -620,7 +632,7 @@ func c19RunRoundtrip(in c19RtIn, verbose bool) c19Verdict {
 			if n%64 == 63 {
 				c19Yield()
 			}
-			k := verifMsgKey(c19Question(p.i, ""))
+			k := c19EntryKey(p.i)
 			sa := snapA[k]
 			tol := cf.Subsec && (sa.Stored%int64(time.Second) != 0)
 			now := vs.Now().UnixNano()
